@@ -13,7 +13,11 @@ import time
 
 ROOT = os.path.dirname(os.path.dirname(os.path.abspath(__file__)))
 LEAN = os.path.join(ROOT, "lean")
-HARNESS = os.path.join(ROOT, "harness")
+# The registered checks always use /verif/harness (which depends on /repo by path). For mutation experiments on a scratch
+# worktree, tools/mutant_check.sh points these at a copy of the harness whose path dependencies are rewritten, and at a
+# scratch output directory, so that neither /repo nor the committed evidence is touched.
+HARNESS = os.environ.get("VERIF_HARNESS_DIR", os.path.join(ROOT, "harness"))
+OUT = os.environ.get("VERIF_OUT_DIR", ROOT)
 DRV = os.path.join(LEAN, ".lake", "build", "bin", "cruxdrv")
 ALLOWED_AXIOMS = {"propext", "Classical.choice", "Quot.sound"}
 FORBIDDEN = re.compile(
@@ -249,9 +253,9 @@ def int_shrinks(case):
 
 def run_property(pid, cfg, tier, seed, replay=None):
     t0 = time.time()
-    work = os.path.join(ROOT, "work", pid)
+    work = os.path.join(OUT, "work", pid)
     os.makedirs(work, exist_ok=True)
-    os.makedirs(os.path.join(ROOT, "evidence"), exist_ok=True)
+    os.makedirs(os.path.join(OUT, "evidence"), exist_ok=True)
     log = open(os.path.join(work, "log.txt"), "w")
     violations = []  # (replay path, suffix)
     known_seen = {}
@@ -352,7 +356,7 @@ def run_property(pid, cfg, tier, seed, replay=None):
             found = None
             if tier != "thorough" and not escalate and not replay:
                 extra = []
-                for g in s.gen_cmds("thorough", seed + 1):
+                for g in s.gen_cmds("search", seed + 1):
                     rc, out, err = sh([bin_path(s.bin)] + [str(x) for x in g])
                     extra += [l for l in out.split("\n") if l]
                 if extra:
@@ -402,7 +406,7 @@ def short(s):
 
 
 def write_replay(pid, tag, obj, case=None):
-    d = os.path.join(ROOT, "replays")
+    d = os.path.join(OUT, "replays")
     os.makedirs(d, exist_ok=True)
     path = os.path.join(d, f"{pid}-{tag}.json")
     json.dump(obj, open(path, "w"), indent=1)
@@ -451,4 +455,4 @@ def write_evidence(pid, cfg, tier, seed, proof, stats, t0, nviol, known_seen, ch
         "wall_s": round(time.time() - t0, 2),
         "violations": nviol,
     }
-    json.dump(obj, open(os.path.join(ROOT, "evidence", f"{pid}.json"), "w"), indent=1)
+    json.dump(obj, open(os.path.join(OUT, "evidence", f"{pid}.json"), "w"), indent=1)
